@@ -6,8 +6,8 @@ binding:  an overlay-injected in-package driver (package main) runs the real cop
           TLC (every environment history of the bounded Relay model) and from an enumeration of
           handler/signal orders; all recorded traces are validated by TLC (monitor steps inferred).
 """
-import itertools, json, random
-from vlib.core import Inconclusive
+import itertools, json, os, random, subprocess
+from vlib.core import Inconclusive, REPO, goenv
 
 SIZES = [1, 7, 1448, 32768, 32769, 70000]
 
@@ -342,6 +342,8 @@ def run(ctx):
         return rej[0] if rej else None
     ctx.settle(crej, creexec, lambda tr: "real end-to-end chain run rejected at event %s: %s (scenario %s)" % (
         tr["reject"]["at_event_index"], json.dumps(tr["reject"]["event"]), json.dumps(tr["scenario"])[:500]), attempts=2)
+    # growth + C19's shutdown clauses on the REAL binary (PtProcess.tla)
+    nproc = run_ptprocess(ctx)
     # growth: the outgoing-proxy dialers behind the relay's remote side (ProxyDial.tla)
     ctx.tlc_expect_ok("ProxyDial", "ProxyDial_socks4.cfg", label="proxy dial, exact reader (SOCKS4): safety + liveness")
     ctx.tlc_expect_ok("ProxyDial", "ProxyDial_http.cfg", label="proxy dial, buffered reader (HTTP CONNECT): safety + liveness")
@@ -384,3 +386,92 @@ def replay(ctx, path):
     for t in ctx.validate(mod, mod + ".cfg", traces, label="replay", deque=True):
         ctx.report_violation(t, "replayed scenario rejected")
     return ctx.finish("model_checking")
+
+
+def ptprocess_scenarios(ctx):
+    """PtProcess.tla: every environment of the model is a launch of the real binary (quick: a sample that covers every
+    field value), life-cycle scripts on the environments that run."""
+    quick = ctx.quick()
+    envs, _ = ctx.tlc_emit("PtProcess", "PtProcess_gen.cfg", tag="PTENV", label="environment generation", workers=1, timeout=900)
+    envs = [e for _n, e in envs]
+    if len(envs) < 19000:
+        raise Inconclusive("only %d environments generated" % len(envs))
+    rng = random.Random(ctx.seed * 131 + 19)
+    rng.shuffle(envs)
+    # configuration protocol: all distinct (role-relevant) environments in the thorough tier, a covering sample otherwise
+    def relevant(e):
+        x = e["env"]
+        key = [x["ver"], x["role"], x["state"]]
+        if x["role"] == "client":
+            key += [tuple(x["methods"]), x["proxy"]]
+        elif x["role"] == "server":
+            key += [tuple(x["methods"]), x["bind"], x["orport"]]
+        return tuple(key)
+    seen, cfg = set(), []
+    for e in envs:
+        k = relevant(e)
+        if k not in seen:
+            seen.add(k)
+            cfg.append(e)
+    if quick:
+        cfg = cfg[:160]
+    scen = [{"id": "ptcfg%d" % i, "env": e["env"], "steps": [], "group": "config"} for i, e in enumerate(cfg)]
+    # life cycle
+    runners = [e for e in envs if e["running"]]
+    scripts = [[("ask", "TERM")], [("ask", "INT")], [("ask", "STDIN")], [("open", ""), ("ask", "INT"), ("close", "")], [("open", ""), ("ask", "TERM")],
+               [("open", ""), ("open", ""), ("ask", "INT"), ("close", ""), ("close", "")], [("open", ""), ("ask", "INT"), ("ask", "INT")],
+               [("open", ""), ("ask", "INT"), ("ask", "TERM")], [("open", ""), ("ask", "STDIN")], [("open", ""), ("close", ""), ("ask", "INT")],
+               [("open", ""), ("close", "")], [("open", ""), ("ask", "INT"), ("ask", "STDIN"), ("close", "")]]
+    k = 0
+    for rep in range(1 if quick else 6):
+        for sc in scripts:
+            e = runners[k % len(runners)]
+            scen.append({"id": "ptlife%d" % k, "env": e["env"], "steps": [{"a": a, "s": s} for a, s in sc], "group": "life"}); k += 1
+    # shutdown requests DURING the configuration (D11 on the real binary): a few milliseconds after launch
+    for rep in range(1 if quick else 4):
+        for ms in (1, 2, 3, 4, 5, 6, 8, 10, 14):
+            for sig in (["TERM"], ["INT"], ["INT", "TERM"]):
+                e = runners[k % len(runners)]
+                scen.append({"id": "ptearly%d" % k, "env": e["env"], "early": sig, "early_ms": ms, "steps": [], "group": "early"}); k += 1
+    return scen
+
+
+def run_ptprocess(ctx):
+    import concurrent.futures
+    from vlib import ptproc
+    quick = ctx.quick()
+    ctx.tlc_expect_ok("PtProcess", "PtProcess_quick.cfg" if quick else "PtProcess_MC.cfg",
+                      label="PT process: configuration protocol invariants + shutdown liveness over every environment", timeout=1800)
+    scen = ptprocess_scenarios(ctx)
+    binary = os.path.join(ctx.scratch, "obfs4proxy.real")
+    p = subprocess.run(["go", "build", "-o", binary, "./obfs4proxy"], cwd=REPO, env=goenv(), stdout=subprocess.PIPE, stderr=subprocess.STDOUT, text=True)
+    if p.returncode != 0:
+        raise Inconclusive("go build ./obfs4proxy failed:\n" + p.stdout[-2000:])
+
+    def one(s):
+        try:
+            return {"id": s["id"], "scenario": s, "events": ptproc.run_scenario(binary, s, ctx.scratch)}
+        except Exception as exc:      # the driver, not the binary
+            return {"id": s["id"], "scenario": s, "events": [{"event": "DriverDead", "why": repr(exc)[:200]}]}
+    with concurrent.futures.ThreadPoolExecutor(max_workers=12) as ex:
+        traces = list(ex.map(one, scen))
+    traces = ctx.drop_dead(traces)
+    life = [t for t in traces if t["scenario"]["group"] != "config"]
+    cfg = [t for t in traces if t["scenario"]["group"] == "config"]
+    ctx.sample({"group": "ptprocess", "scenario": {k: v for k, v in life[0]["scenario"].items()}, "events": life[0]["events"]})
+    # the shutdown clauses of C19 on the real process: verdicts
+    lrej = ctx.validate("PtProcessTrace", "PtProcessTrace.cfg", life, label="real process: life cycle")
+
+    def reexec(tr):
+        t2 = [one(tr["scenario"])]
+        rej = ctx.validate("PtProcessTrace", "PtProcessTrace.cfg", t2, label="re-validation")
+        return rej[0] if rej else None
+    ctx.settle(lrej, reexec, lambda tr: "the real obfs4proxy process: rejected at event %s: %s (scenario %s)" % (
+        tr["reject"]["at_event_index"], json.dumps(tr["reject"]["event"])[:200], json.dumps(tr["scenario"])[:400]), attempts=3)
+    # the configuration protocol is not a listed property: mismatches are reported as notes, not as verdicts
+    crej = ctx.validate("PtProcessTrace", "PtProcessTrace.cfg", cfg, label="real process: configuration protocol", max_rejects=10)
+    for tr in crej:
+        ctx.notes.append("PT configuration protocol drift (growth spec, no verdict): %s at %s" % (
+            json.dumps(tr["scenario"]["env"]), json.dumps(tr["reject"]["event"])[:300]))
+    ctx.log("ptprocess: %d launches (%d configuration, %d life cycle / early), %d + %d rejected" % (len(traces), len(cfg), len(life), len(lrej), len(crej)))
+    return len(traces)
